@@ -14,7 +14,7 @@ from ..vlib import Report, Inconclusive
 
 PROPS = ["C12"]
 
-INVARIANTS = ["WalletSelectsOnlySatisfying", "NoPartialSelection", "NoPanic", "WalletVerifierAgree",
+INVARIANTS = ["WalletSelectsOnlySatisfying", "NoPartialSelection", "NoFalseMissing", "NoPanic", "WalletVerifierAgree",
               "ForgedMappingRejected", "ExtractedValueIsPresentValue"]
 # deviation constant (FALSE = the code still deviates) -> invariants the descriptive model then violates
 DEVIATION_BREAKS = {"PickMaxOptional": ["NoPanic"], "ArrayNoFallThrough": ["NoPanic", "WalletSelectsOnlySatisfying"],
@@ -32,7 +32,7 @@ WORKERS = 8
 def signature(v):
     """Signature of a violation: its kind + the class of input that triggers it (never the concrete case)."""
     k = v["kind"]
-    if k == "selected-unsatisfying":
+    if k in ("selected-unsatisfying", "false-missing-credentials"):
         return dict(kind=k, filter=v.get("filter", ""))
     if k == "forged-accepted":
         return dict(kind=k, mut=v.get("mut", ""))
@@ -140,9 +140,9 @@ def brief(c):
         return s + (" from " + r["from"] if not r["nested"] else " from_nested[" + "; ".join(req(x) for x in r["nested"]) + "]")
     def flt(f):
         if not f["flt"]:
-            return f["path"] + ": any"
+            return "|".join(f["path"]) + ": any" + (" optional" if f["opt"] else "")
         x = f["flt"][0]
-        return f["path"] + ": " + json.dumps({k: v for k, v in (("type", x["type"]), ("const", x["const"]), ("enum", x["enum"]), ("pattern", x["pat"])) if v}) + (" optional" if f["opt"] else "")
+        return "|".join(f["path"]) + ": " + json.dumps({k: v for k, v in (("type", x["type"]), ("const", x["const"]), ("enum", x["enum"]), ("pattern", x["pat"])) if v}) + (" optional" if f["opt"] else "")
     def val(v):
         if v["k"] == "a":
             return [val(e) for e in v["a"]]
@@ -150,9 +150,10 @@ def brief(c):
     return dict(family=c["fam"], definition_format=c["def"]["fmt"],
                 descriptors=["%s {%s} format=%s group=%s" % (d["id"], "; ".join(flt(f) for f in d["fields"]), d["fmt"], ",".join(d["grp"])) for d in c["def"]["ds"]],
                 requirements=[req(r) for r in c["def"]["reqs"]],
-                wallet=["%s(%s f=%s)" % (w["name"], w["fmt"], json.dumps(val(w["f"]))) for w in c["wallet"]],
+                wallet=["%s(%s f=%s%s)" % (w["name"], w["fmt"], json.dumps(val(w["f"])), "" if w["g"]["k"] == "none" else " g=" + json.dumps(val(w["g"])))
+                        for w in c["wallet"]],
                 reference=dict(sat={r["d"]: r["cs"] for r in c["exp"]["sat"]}, valid_descriptor_sets=c["exp"]["valid"],
-                               complete_selection_exists=c["exp"]["complete"]),
+                               complete_selection_exists=c["exp"]["complete"], wallet_must_find_it=c["exp"]["mustfind"]),
                 model_prediction=dict(c["exp"]["pred"], deviation_class=c["exp"]["class"]),
                 submissions=["%s/%s must=%s" % (s["shape"], s["mut"], s["must"]) for s in c["subs"][:12]])
 
@@ -233,6 +234,15 @@ def run(prop, tier, seed, replay=None):
             if d.violation != inv:
                 rep.notes.append("DRIFT: the descriptive model no longer violates %s (deviation constants out of date?)" % inv)
 
+        # the dimension "several paths of a field select a value" is observable: with the defect class "the first path that
+        # selects a value decides" the model violates NoFalseMissing on the family paths
+        d = vlib.tlc("MCPex", "Pex.vac.PathsIncremental.cfg", workers=WORKERS, timeout=900)
+        if d.error:
+            raise Inconclusive("TLC Pex.vac.PathsIncremental: %s" % d.error)
+        models.append(dict(cfg="Pex.vac.PathsIncremental.cfg", expected_violation="NoFalseMissing", violated=d.violation))
+        if d.violation != "NoFalseMissing":
+            raise Inconclusive("vacuity: the family paths does not distinguish `the first path that selects a value decides` (NoFalseMissing held)")
+
     # 2. TLC enumerates the cases with their expected outcomes
     g, cases = generate(tier)
     models.append(dict(cfg="Pex.gen.%s.cfg" % tier, states=g.distinct, transitions=g.generated, depth=g.depth, wall_s=round(g.wall, 1), cases_printed=len(cases)))
@@ -287,21 +297,25 @@ def run(prop, tier, seed, replay=None):
                of_which_over_incomplete_envelopes=n_inc,
                cases_with_violation=stats["viol_cases"], drift_cases=stats["drift_cases"], models=models, action_coverage_mini_family=cover,
                known_findings_seen=sorted(rep.known),
-               rule="TLC enumerates every (definition, wallet) pair of four families of MCPex.tla (filters: every filter kind x value kind x "
-                    "credential format; format: definition x descriptor format designations; reqs: <=3 descriptors x every schema-valid "
+               rule="TLC enumerates every (definition, wallet) pair of five families of MCPex.tla (filters: every filter kind x value kind x "
+                    "credential format; paths: a field listing several paths x filter kind x optional x credentials carrying every pair of "
+                    "values at two of the paths, so that the first, a later, several or none of the paths select a value that passes or "
+                    "fails the filter; format: definition x descriptor format designations; reqs: <=3 descriptors x every schema-valid "
                     "submission-requirement shape incl. nested two levels x wallets of <=%d credentials; forge: every mutation of the built "
                     "submission x 6 envelope shapes) and prints each with the expectations of the TLA+ reference matcher; each printed case is "
                     "concretised and run on the real Match/Build/Validate/ResolveConstraintsFields%s. evaluations = oracle decisions taken on "
                     "real outcomes. distinct_nontrivial = distinct (definition, wallet) pairs in which the real wallet selected at least one "
                     "credential, or panicked, or the reference says no complete selection exists although the wallet holds a credential that "
                     "satisfies at least one descriptor (near miss), plus distinct mutated submissions validated; pairs where an empty or "
-                    "unrelated wallet trivially fails, or a complete wallet is refused for another reason, are not counted."
+                    "unrelated wallet trivially fails, or a complete wallet is refused for another reason, are not counted. "
+                    "A wallet answer `missing credentials` is judged false (false-missing-credentials) only for definitions without nested "
+                    "requirements and with every group referenced (mustfind)."
                     % (3 if quick else 4, " (quick: all small families + a seeded 40%% sample of the reqs family stratified by predicted class)" if quick else ""))
     vlib.write_evidence(prop, tier, seed, "exploration", cov, time.time() - t0, len(rep.violations),
                         ["go-did parses/marshals credentials and presentations as the node does (same library)",
                          "PaesslerAG/jsonpath and regexp2 behave on the generated paths/patterns as python re does on the pattern table (checked for the table)",
                          "credential and presentation signatures are not verified by vcr/pe (dummy proofs, throw-away ES256 key)",
-                         "small scope: <=3 input descriptors, <=2 fields per descriptor, <=4 credentials, <=2 groups per requirement level (3 for two-level nesting), one wallet per presentation",
+                         "small scope: <=3 input descriptors, <=2 fields per descriptor, <=3 paths per field (two claims + $.type), <=4 credentials, <=2 groups per requirement level (3 for two-level nesting), one wallet per presentation",
                          "submission requirements: each descriptor belongs to one group except in `all`-only definitions; a nested `pick` is valid under either counting reading (touched / satisfied)",
                          "the presentation format label of a path_nested hop (ldp_vp/jwt_vp) is not judged: the code only decodes ldp_vp hops"])
     print("C12: %d cases enumerated by TLC, %d replayed, %d oracle decisions, %d mutated submissions (%d must be rejected), %d drift cases, %.0f s"
